@@ -22,6 +22,8 @@ for fl in ("plain", "asan", "shim"):
         if fl != "shim":
             raise
         print("native shim: unavailable (%s)" % str(e)[:200])
+from harness import tlaps  # noqa: E402
+print("tlapm LayoutProofs:", tlaps.layout_proofs())
 import subprocess  # noqa: E402
 r = subprocess.run([build.PY, os.path.join(VERIF, "tools", "test_ompparse.py")], capture_output=True, text=True)
 print("ompparse self-test:", "ok" if r.returncode == 0 else "FAILED\n" + r.stdout[-2000:])
